@@ -199,6 +199,7 @@ func newWorld(p *Plan, res *verifsim.Result, start time.Time) *world {
 		ord:   map[string]int{},
 		holds: map[string]chan struct{}{},
 		endC:  make(chan struct{}),
+		ghosts: map[int][]AddrW{},
 	}
 	for i := range p.Faults {
 		f := &faultState{Fault: p.Faults[i], left: p.Faults[i].Count}
@@ -514,6 +515,29 @@ func (w *world) apply(a *Action, ds []*daemon) {
 			w.mu.Unlock()
 			e.S = a.MAC
 			w.log.Add(e)
+		}
+	case "reindex":
+		// the interface is deleted and re-created (tunnel, VLAN, PPP…): same name,
+		// new index; the old index is either gone or re-used by another interface
+		if ifc != nil && a.N > 0 {
+			w.mu.Lock()
+			old := ifc.spec.Index
+			delete(w.byIdx, old)
+			ifc.spec.Index = a.N
+			w.byIdx[a.N] = ifc
+			if len(a.Addrs) > 0 {
+				w.ghosts[old] = append([]AddrW(nil), a.Addrs...)
+			}
+			w.mu.Unlock()
+			e.V = int64(a.N)
+			w.log.Add(e)
+			// the kernel announces it: the old link goes away (RTM_DELLINK / oper down)
+			msg := &rtnetlink.LinkMessage{Attributes: &rtnetlink.LinkAttributes{Name: a.If, OperationalState: operState("down")}}
+			select {
+			case n.linkC <- []rtnetlink.Message{msg}:
+				w.log.Add(verifsim.Event{K: "act.link", Node: a.Node, If: a.If, S: "down"})
+			default:
+			}
 		}
 	case "ifdown", "ifup":
 		if ifc != nil {
